@@ -168,7 +168,28 @@ func (g *c05Gen) body(depth int, wantReturn bool, sh map[string]bool) c05Body {
 		}
 		return out
 	}
-	switch k := g.rng.IntN(11); k {
+	switch k := g.rng.IntN(13); k {
+	case 11, 12: // `for v in xs` over a dynamic array that is empty for some arguments: the loop body may
+		// return on every path, yet the loop itself can run zero times
+		g.n++
+		an, vn := fmt.Sprintf("arr%d", g.n), fmt.Sprintf("el%d", g.n)
+		dt := &gen.Type{K: gen.KDyn, Elem: gen.I32}
+		av := &gen.Var{Name: an, T: dt}
+		inner := g.body(depth-1, true, sh)
+		out.stmts = append(out.stmts,
+			&gen.Let{Name: an, T: dt, Init: &gen.ArrLit{T: dt}, Annot: true},
+			&gen.If{Cond: g.cond(), Then: []gen.Stmt{&gen.Append{Arr: av, Val: &gen.Bin{Op: "+", L: g.a, R: g.lit(1), T: gen.I32}}}})
+		if g.rng.IntN(2) == 0 {
+			out.stmts = append(out.stmts, &gen.ForDyn{Val: vn, Arr: av, Body: inner.stmts})
+		} else {
+			out.stmts = append(out.stmts, &gen.ForDyn{Idx: "ix" + vn, Val: vn, Arr: av, Body: inner.stmts})
+		}
+		out.may = inner.may
+		sh["for-over-dynamic-array"] = true
+		if wantReturn {
+			out.stmts = append(out.stmts, g.retStmt())
+			out.returns = true
+		}
 	case 9, 10: // `while true` around a construct whose arms end in return or break
 		// the loop can only be left through a break: with a break in some arm the code after the
 		// loop is reachable and needs its own return; without one the loop never completes normally
@@ -351,7 +372,7 @@ func (g *c05Gen) body(depth int, wantReturn bool, sh map[string]bool) c05Body {
 
 func checkC05(c *Ctx) error {
 	r := c.R
-	r.Rule = "function bodies built from nested if / else-if / else, integer match with and without default, enum match (exhaustive without default = MAY), while / for with break / continue and early returns, `while true` loops around if/else and exhaustive matches whose arms end in return or break, as named functions, methods and function literals, with conditions over parameters and over locals that are run-time valued at the test but constant elsewhere in the function (plus 14 directed stale-constant templates x 4 forms); each classified by a reference path analysis. MUST_REJECT bodies must be rejected (control: the same body plus a trailing return must be accepted), MUST_ACCEPT bodies must be accepted; every accepted function is called natively over the argument grid {-1,0,1,2,3}^2 x all enum variants and its printed results compared with the reference interpreter (which detects falling off the end). non-trivial = a distinct body whose verdict matched (and, if accepted, whose grid outputs matched)"
+	r.Rule = "function bodies built from nested if / else-if / else, integer match with and without default, enum match (exhaustive without default = MAY), while / for with break / continue and early returns, for over a dynamic array that is empty for some arguments, `while true` loops around if/else and exhaustive matches whose arms end in return or break, as named functions, methods and function literals, with conditions over parameters and over locals that are run-time valued at the test but constant elsewhere in the function (plus 14 directed stale-constant templates x 4 forms); each classified by a reference path analysis. MUST_REJECT bodies must be rejected (control: the same body plus a trailing return must be accepted), MUST_ACCEPT bodies must be accepted; every accepted function is called natively over the argument grid {-1,0,1,2,3}^2 x all enum variants and its printed results compared with the reference interpreter (which detects falling off the end). non-trivial = a distinct body whose verdict matched (and, if accepted, whose grid outputs matched)"
 	r.Assumptions = []string{"conditions are opaque to the path analysis; `while` and `for` never count as returning; statements after a return are not generated"}
 	n := c.N(320, 4000)
 	enum := &gen.Type{K: gen.KEnum, Name: "Kind", Variants: []string{"A", "B", "C"}}
